@@ -101,7 +101,10 @@ TEXT = {
          "Float printing (own shortest-round-trip algorithm) and cli.run are validated by correspondence (random bit "
          "patterns; exit statuses).", "5 C18"),
  'C20': ("The model's front end is a function of (program, stdin, files, module registry): no hash seed, no interpreter "
-         "state — determinism by construction (thin theorems). The substantive check is the correspondence: sessions of "
+         "state — determinism by construction; and a theorem about evaluations sharing one heap: a closed program of the fragment of "
+         "the call-by-name reference semantics, evaluated in any heap that satisfies the adequacy invariant (the initial one or one "
+         "left by earlier evaluations), computes its by-name value and re-establishes the invariant, so every sequence of such "
+         "programs yields the values the programs have on their own. Beyond the fragment the check is the correspondence: sessions of "
          "programs in one process (imports, stack-limit aborts, I/O) vs stand-alone outcomes vs the model, and fresh "
          "processes under several PYTHONHASHSEED values.", "5 C20"),
  'C08': ("Theorems for all integers / all digit words: decode∘encode = id, characterisation of all spellings, encoder "
